@@ -412,7 +412,7 @@ func child(env hres.Env) *hres.Result {
 		if !st.Exhaustive {
 			exhaustive = false
 		}
-		per[f.Name] = map[string]any{"what": f.Describe, "executions": st.Executions, "pruned_unschedulable": st.Pruned, "distinct_outcomes": st.Outcomes,
+		per[f.Name] = map[string]any{"what": f.Describe, "budget_s": time.Until(dl).Seconds() + st.WallS, "executions": st.Executions, "pruned_unschedulable": st.Pruned, "distinct_outcomes": st.Outcomes,
 			"exhaustive": st.Exhaustive, "cap_hit": st.CapHit, "divergences": st.Divergences, "wall_s": st.WallS}
 		for _, s := range st.Samples {
 			samples = append(samples, map[string]any{"family": f.Name, "choices": s.Choices, "final_state": s.Outcome})
